@@ -502,6 +502,11 @@ func (s *Service) executeBackendRequest(ctx context.Context, endpoint *domain.En
 	resp, err := pool.transport.RoundTrip(proxyReq)
 	stats.BackendResponseMs = time.Since(backendStart).Milliseconds()
 
+	if err == nil && (resp.StatusCode < 100 || resp.StatusCode > 999) {
+		// net/http refuses to relay such a status line (WriteHeader panics): an unusable answer
+		resp.Body.Close()
+		err = fmt.Errorf("backend answered with invalid status code %d", resp.StatusCode)
+	}
 	if err != nil {
 		// Record failure and check if circuit breaker opened
 		failuresBefore := atomic.LoadInt64(&cb.failures)
